@@ -445,6 +445,34 @@ def run(prog):
         dfn = prog.find1(name=dname, self_adt="repr::bdd::BddPtr", unit="rsdd-lib")
         dr = strip(dfn.terms.ret)
         errs = []
+
+        def _leaves(t):
+            t = strip(t)
+            if isinstance(t, tuple) and t and t[0] in ("gamma", "phi"):
+                o = []
+                for _, v in t[2]:
+                    o += _leaves(v)
+                return o
+            return [t]
+        lv = _leaves(dr)
+        searches = [x for x in lv if mir.is_call(x, sname) and len(x[2]) == 6]
+        for x in lv:
+            if x in searches:
+                continue
+            # a return that does not come from the search (a shortcut for a degenerate diagram): the pair must still be
+            # (value of the assignment, that assignment) — the property promises an assignment that *attains* the value
+            if x[0] == "agg" and x[1] == "tuple" and len(x[4]) == 2:
+                val, asg = strip(x[4][0]), strip(x[4][1])
+                ucs_ = [y for y in [val] + list(mir.subterms(val)) if is_ucall(y, uname)]
+                if not ucs_ or unclone(ucs_[0][2][1]) != unclone(asg):
+                    errs.append("the driver also returns (%s, %s) without going through the search: the value is not computed as the "
+                                "value of the assignment it is returned with (for a constant diagram the optimum over the query "
+                                "variables is the product of their larger weights, and the witness must pick those)"
+                                % (show(val)[:40], show(asg)[:30]))
+            else:
+                errs.append("?a return of the driver is neither the search nor a (value, assignment) pair: %s" % show(x)[:50])
+        if len(searches) == 1:
+            dr = searches[0]
         if not mir.is_call(dr, sname) or len(dr[2]) != 6:
             errs.append("?driver does not end in a call of %s" % sname)
         else:
